@@ -103,6 +103,11 @@ func (mgr *ConnManager) Close() error {
 			}
 		} else {
 			errs = errors.Join(errs, err)
+			// The connection is not served any longer even if closing it
+			// reported an error: it must not stay registered.
+			if err := mgr.RemoveConn(conn); err != nil {
+				errs = errors.Join(errs, err)
+			}
 		}
 	}
 	return errs
